@@ -76,6 +76,13 @@ class MayThrow:
                 m = [re.match(r'^this\.(\w+)\[arg0\]$', R.render(r['ch'][0])) for r in rets]
                 if all(m):
                     self._pos[f.usr] = m[0].group(1)
+                else:
+                    # through a helper: every return designates an element of one member container
+                    from paths import root_of
+                    roots = [root_of(f, r['ch'][0]) for r in rets]
+                    if all(k_ == 'this' and len(p_) == 2 and p_[1] == '[]' for k_, p_ in roots) and len({p_[0] for _, p_ in roots}) == 1 and \
+                            (f.rec['ret'].endswith('&')):
+                        self._pos[f.usr] = roots[0][1][0]
             elif 'basic_string' in f.params[0]['type'] and f.rec['ret'] == 'unsigned long':
                 from loops import normal_for
                 fors = [n for n in f.all_nodes({'ForStmt'})]
@@ -85,6 +92,18 @@ class MayThrow:
                         m = re.match(r'^this\.(\w+)\.size$', R.render(lf['bound']))
                         if m:
                             self._idx[f.usr] = m.group(1)
+                if f.usr not in self._idx and f.cls in self.prog.classes and f.rec.get('const'):
+                    # another spelling of the search: decided on finite models (see C11)
+                    for fl in self.prog.classes[f.cls]['fields']:
+                        vm = re.match(r'^std::vector<(.*)>$', fl['type'])
+                        if vm and any(x['name'] == '_name' for x in self.prog.classes.get(vm.group(1), {}).get('fields', [])):
+                            try:
+                                import p_c11
+                                al_ = {a: c for a, c in (('parameter', '_parameters'), ('group', '_groups'), ('point', '_points'), ('channel', '_channels')) if c == fl['name']}
+                                if p_c11.model_index_by_name(f, fl['name'], al_)[0] == 'ok':
+                                    self._idx[f.usr] = fl['name']
+                            except Exception:
+                                pass
 
     def index_validated(self, f, n):
         """the call n is positional(idx) / by-name(positional(idxfn(name))) whose index cannot be out
